@@ -135,7 +135,8 @@ def run_one(idx, mut, props_override, keep_going):
         os.makedirs(os.path.join(ver, "replays"), exist_ok=True)
         rec["checks"] = {}
         rec["status"] = "MISSED"
-        for pr in (props_override or PROPS[fn]):
+        skip = set((os.environ.get("MUT_SKIP") or "").split(","))
+        for pr in [q for q in (props_override or PROPS[fn]) if q not in skip]:
             rc, o = sh(["./check", pr], cwd=ver, env=dict(ENV, VERIF_REPO=repo), timeout=2400)
             what_ = []
             for l in o.split("\n"):
